@@ -18,6 +18,10 @@ PART B (data transport).  Dodo-like task sets (task creators loaded with doit.lo
   Compared with the serial run: per-task outcome and failure details as the reporter of the MAIN process sees
   them, captured out/err, final values/result of every Task object, what getargs consumers received, the
   normalised DB dump, digests of every file of the work tree, teardowns, exit code.
+  Three hand-written task sets come first (fixed_sets): a getargs consumer whose source runs with a new result,
+  the same data flow through task_dep/result_dep/calc_dep, and a delayed sub-task selected by name whose trigger fails.
+  Differences that are confined to what two known order-dependences of the dispatcher can reach (known_root_causes)
+  are reported once per run under the shape of the root cause; everything else under the shape of the section.
 PART C (oracle independent of the serial run).  Every action records, through a side channel (a file written
   by the worker itself), what it returned/printed; that must be what the main process reported and saved.
 
@@ -102,10 +106,11 @@ def gen_base(rng, small):
 
 def part_a(ctx, out, cases):
     rng = ctx.rng
-    n_small, n_big = ctx.n(40, 450), ctx.n(100, 1500)
-    lim_all = ctx.n(16, 40)             # cap on enumerated schedules per (case, flavour, k)
+    n_small, n_big = ctx.n(60, 600), ctx.n(120, 1200)
+    lim_all = ctx.n(16, 32)             # cap on enumerated schedules per (case, flavour, k)
     n_rand = ctx.n(2, 3)                # random schedules per (case, flavour, k) of a big case
-    budget = ctx.n(3800, 40000)         # total runs (each one is also evaluated inside Coq)
+    budget_small, budget_big = ctx.n(2000, 10000), ctx.n(1700, 9000)      # runs (each one is also evaluated inside Coq)
+    used = dict(small=0, big=0)
     stat = dict(base=0, skipped=0, out_of_domain=0, runs=0, exhaustive_complete=0, exhaustive_capped=0, forced_continue=0)
     t0 = time.time()
 
@@ -116,8 +121,9 @@ def part_a(ctx, out, cases):
 
     for b in range(n_small + n_big):
         small = b < n_small
-        if len(cases) > budget:
-            break
+        if used['small' if small else 'big'] > (budget_small if small else budget_big):
+            continue
+        before = len(cases)
         base = gen_base(rng, small)
         try:
             ser = dict(copy.deepcopy(raw(base)), flavour='serial', k=1)
@@ -176,10 +182,12 @@ def part_a(ctx, out, cases):
                                           serial_events=rs['events'], parallel=runfam.desc(v))))
             if len(ss['executed']) >= 2 and len(traces) >= 2:
                 out.nontrivial.add(('A', tuple(rs['trace']), base['cont'], len(traces)))
+            used['small' if small else 'big'] += len(cases) - before
         except Exception as e:     # a harness-side surprise must be visible, never silent
             out.violations.append(dict(what='part A: exception while running a case: %r' % (e,), shape='c08:harness-exception-A',
                                        case=dict(part='A', raw_case=raw(base), tb=traceback.format_exc()[-1500:])))
     stat['seconds'] = round(time.time() - t0, 1)
+    stat['runs_of_small_cases'], stat['runs_of_big_cases'] = used['small'], used['big']
     out.extra['part_A'] = stat
 
 
@@ -494,11 +502,14 @@ def known_root_causes(spec, ns, np_):
     (2) a sub-task of a delayed creator selected by name: the node built from the by-name placeholder inherits the status of the
         creator's trigger task (`executed`), the node built from the created task does not."""
     every = all_specs(spec)
-    executed = set(ns['executed']) | set(np_['executed'])
+    # the saved result of the source changes when it is executed, and also when it fails without being executed (record removed)
+    touched = set(ns['executed']) | set(np_['executed'])
+    for o in (ns['outcome'], np_['outcome']):
+        touched |= set(nm for nm, v in o.items() if v not in ('up-to-date', 'ignored'))
     r1 = set()
     for t in every:
         for src, key in t['getargs'].values():
-            if src in executed or any(x.startswith(src + ':') for x in executed):
+            if src in touched or any(x.startswith(src + ':') for x in touched):
                 r1.add(t['name'])
     r2 = set()
     dl = spec['delayed']
@@ -1044,8 +1055,8 @@ def oracle_c(spec, r, flavour, nproc):
                     out += 'opt=%s\n' % (rp['options'] or {}).get(a['use_opt'])
                 err = a.get('err') or ''
                 code = a.get('exit', 0)
-                if code == 127:
-                    err = None                                  # text of the shell
+                if code == 127 or (a.get('write') and any('does-not-exist' in f for f in rp['file_dep'])):
+                    err = None                                  # text of the shell / of md5sum about a missing file_dep
                 exp_outs.append(out); exp_errs.append(err)
                 if code:
                     failed_at = (i, dict(ret='exit%d' % code))
@@ -1210,7 +1221,7 @@ def part_b(ctx, out):
                     if r1 and who <= dependents_closure(spec, r1):
                         stat['attributed_to_getargs_order'] = stat.get('attributed_to_getargs_order', 0) + 1
                         out.violations.append(dict(
-                            what=('%s: task(s) %s differ from the serial run; all of them are, or depend on, getargs consumers %s whose source task was executed in the same run: '
+                            what=('%s: task(s) %s differ from the serial run; all of them are, or depend on, getargs consumers %s whose source task was executed (or failed) in the same run: '
                                   'the source is only a setup-task of the consumer, so the up-to-date check of the consumer reads the result the source saved in the '
                                   'PREVIOUS run or the new one depending on the completion order (checked while/before the source runs vs. after).  %s'
                                   % (label, sorted(who), sorted(r1 & dependents_closure(spec, r1)), detail)),
@@ -1326,6 +1337,14 @@ def replay(ctx, payload):
     for key, shape in SECTIONS_B:
         if ns[key] != np_[key]:
             print('DIFF', shape, first_diff(ns[key], np_[key], key)); status = 1
+    if status:
+        who = differing_tasks(spec, ns, np_)
+        r1, r2 = known_root_causes(spec, ns, np_)
+        print('tasks that differ:', sorted(who))
+        if r1 and who <= dependents_closure(spec, r1 | r2):
+            print('ATTRIBUTED-TO c08:getargs-consumer-check-not-ordered-after-source, consumers', sorted(r1), 'by-name delayed sub-tasks', sorted(r2))
+        elif r2 and who <= dependents_closure(spec, r2):
+            print('ATTRIBUTED-TO c08:delayed-subtask-by-name-after-failed-trigger', sorted(r2))
     for c, r in res.items():
         for shape, what in oracle_c(spec, r, c[0], c[1])[0]:
             print('ORACLE-C', c, shape, what); status = 1
